@@ -705,3 +705,5 @@ def run(ctx):
     ctx.do(_c15b.r15_4)  # STORE addresses exactly the messages its set denotes
     from . import c03 as _c03p
     ctx.do(_c03p.r3_5)  # a pack renumbers the messages: the flag table is re-read with the keys
+    from . import c13 as _c13g
+    ctx.do(_c13g.r13_9)  # a delivered message does not inherit the flags of the key it re-uses
